@@ -56,20 +56,24 @@ RULE = ("random ADMGs with 2-6 nodes (isolated nodes, bidirected-only nodes, bow
         "plus direct calls of the helpers. A case is non-trivial when the graph has >=3 nodes and the run reaches one of "
         "lines 4, 6, 9, 10 (recorded from the algorithm's own debug log).")
 ASSUMPTIONS = [
-    "trso_sound (estimand = P*(y|do(x)) in every compatible family) is OPEN: only 'line 1 is marginalisation of the carried "
-    "distribution' (line1_den) is proved; the clause rests on the correspondence + exact multi-domain oracle",
-    "trso_no_surrogate_iff_id: the VERDICT part is proved (trso_no_surrogate_iff_id_partial, "
-    "trso_no_surrogate_none_iff_id_partial: with no declared experiment the model of TRSO returns an estimand exactly when "
-    "the model of ID does, and 'no estimand' exactly when ID raises Unidentifiable); that both estimands denote the same "
-    "function is OPEN (needs denotation lemmas for the TrDsl operators; fraction cancellation needs positivity); the "
-    "verdict is also compared with the real identify_outcomes on every no-surrogate case",
-    "trso_no_internal_error: proved for inputs whose source domains declare no experiment "
-    "(trso_no_internal_error_partial) and, for ALL validated inputs, up to one raise site "
-    "(trso_only_activate_error_partial: the only error that can remain is the NotImplementedError that "
-    "activate_domain_and_interventions raises on One(); no KeyError / NetworkX error / RuntimeError / ZeroDivisionError / "
-    "TypeError / AttributeError / ValueError / RecursionError: the budget Query.fuel provably exceeds a decreasing "
-    "measure). OPEN: that the estimand found inside a source domain never contains One(). Hypotheses: graph well-formed "
-    "and acyclic, node names below 100 (the harness's name table; selection nodes are 200 + v), Y non-empty",
+    "trso_sound (first sentence of the property) is PROVED at full strength for the Lean model (Props/C05 trso_sound: every "
+    "validated input over a well-formed acyclic graph with node names below 100 and non-empty outcomes, every run whatever "
+    "the number and depth of line-6 steps, every family of positive semi-Markovian models compatible with the derived "
+    "selection diagrams - Spec/FamilySpec Family.SelectionCompatible: same cardinalities, latent variables, latent priors, "
+    "and same mechanisms except at the variables where get_nodes_to_transport places a selection node -, every value "
+    "assignment); it is about the model Y0.Model.Trso / TrDsl with the separation test Trso.dSeparated, tied to the Python "
+    "by the correspondence of every run; the exact multi-domain oracle re-decides the clause on the real code",
+    "trso_no_surrogate_iff_id: verdicts (trso_no_surrogate_iff_id_partial, trso_no_surrogate_none_iff_id_partial) and "
+    "denotations (trso_sound_no_surrogate for ANY separation test, trso_no_surrogate_den_eq_id: both estimands are "
+    "P(Y|do(X)) in every compatible model) are proved for inputs whose source domains DECLARE no experiment; 'no experiment "
+    "is usable although some are declared' is covered by trso_sound for the denotation but not by a verdict theorem (the "
+    "verdict is compared with the real identify_outcomes on every such case)",
+    "trso_no_internal_error (last sentence) is PROVED for the Lean model for ALL validated inputs (Props/C05 "
+    "trso_no_internal_error: identify_target_outcomes returns an estimand or 'no estimand', no exception of any kind, in "
+    "particular not the NotImplementedError of activate_domain_and_interventions on One(): the estimand of a run inside "
+    "a source domain contains no One() - shown by following the run in the coin family). Hypotheses: graph well-formed and "
+    "acyclic, node names below 100 (the harness's name table; selection nodes are 200 + v), Y non-empty, separation test = "
+    "the model of are_d_separated",
     "the theorems about `are_d_separated` used for the phase after line 6 are about the model Trso.dSeparated "
     "(moralisation test), tied to the Python by the `separated` helper correspondence",
     "the rule placing selection nodes, (De(Z_i) - W_i) u (C(W_i) - An(W_i) in G[bar Z_i]), is taken from the paper as "
@@ -308,16 +312,16 @@ def _rand_expr(rng, nodes, depth=0):
         pop = rng.choice([TARGET, TARGET + 1, TARGET + 2])
         return ["PP", E.plain(pop), [E.plain(v) for v in sorted(vs[:nc])], [E.plain(v) for v in sorted(vs[nc:])]]
     if r < 0.55:
-        # ranges among the variables of the summand (summing a joint over a variable it does not mention is the
-        # Sum.simplify defect of C10, outside this property)
+        # ranges mostly among the variables of the summand; sometimes any node (a joint summed over a variable it does
+        # not mention: the superset / partial-overlap branches of Sum.simplify, repaired by fix ed0f7b2)
         inner = _rand_expr(rng, nodes, depth + 1)
-        pool = sorted(FE.free_names(inner))
+        pool = sorted(FE.free_names(inner)) if rng.random() < 0.75 else sorted(nodes)
         if not pool:
             return inner
         return ["sum", [E.plain(v) for v in sorted(rng.sample(pool, rng.randint(1, min(2, len(pool)))))], inner]
     if r < 0.8:
         return ["prod"] + [_rand_expr(rng, nodes, depth + 1) for _ in range(rng.randint(2, 3))]
-    if r < 0.97:
+    if r < 0.95:
         return ["frac", _rand_expr(rng, nodes, depth + 1), _rand_expr(rng, nodes, depth + 1)]
     return "one"
 
@@ -885,21 +889,34 @@ import atexit  # noqa: E402
 atexit.register(_report)
 
 MANIFEST = {
-    "text": ("Partial proof. Lean theorems about the executable model of transport.py (Y0.Model.Trso / TrDsl, tied to the code "
-             "by the correspondence check on every run; 22 theorems in Props/C05 + 19 in Props/C06Transport): "
+    "text": ("Proof (for the executable model). Lean theorems about the executable model of transport.py (Y0.Model.Trso / TrDsl, tied to the code "
+             "by the correspondence check on every run; 27 theorems in Props/C05 + 19 in Props/C06Transport): "
+             "(0) SOUNDNESS (trso_sound, full strength): whenever identify_target_outcomes returns an estimand, its value in "
+             "every family of positive semi-Markovian models compatible with the derived selection diagrams, with pi* leaves "
+             "read in the target model and PP[d](.. @ z) leaves read in the model of domain d under do(z), is the target P*(y|do(x)) "
+             "at every assignment - for every run, any number of source experiments at any depth. Proof: recursion "
+             "invariant: the carried expression denotes the c-factor Q[V_cur] of the current domain model (lines 1-4, 9, 10 "
+             "by the c-factor lemmas of Tian and Pearl), denotation lemmas for every dsl.py operator the run uses including canonicalize and "
+             "Fraction.simplify (cancellation is sound by positivity), inside a source domain every leaf is read as what "
+             "activate_domain_and_interventions turns it into, and line 6 is the transport step: a positive separation test "
+             "means no variable of V_cur - X carries a selection node, so Q[V_cur - X] consists of shared mechanisms; that the "
+             "canonical product of line 10 is never again a bare joint is shown in a coin model of the family class; "
              "(1) totality and error taxonomy - every outcome of the recursion is an estimand, 'no estimand' or an INTERNAL "
              "error (trsoF_error_internal); identify_target_outcomes raises the documented ValueError exactly on invalid "
              "input (identify_invalid_iff, identify_trichotomy); "
-             "(1b) 'never fails other than by no estimand': PROVED for every validated input whose source domains declare no "
-             "experiment (trso_no_internal_error_partial), and for ALL validated inputs up to one raise site "
-             "(trso_only_activate_error_partial): the only exception that can remain is the NotImplementedError of "
-             "activate_domain_and_interventions on One(); every look-up, ancestor computation, separation test, "
+             "(1b) 'never fails other than by no estimand': PROVED for ALL validated inputs (trso_no_internal_error): no exception "
+             "of any kind. Intermediate results: trso_no_internal_error_partial (no declared experiment, any separation test) and "
+             "trso_only_activate_error_partial (the only exception that could remain is the NotImplementedError of "
+             "activate_domain_and_interventions on One()); that one is excluded by a shape invariant of source-domain runs "
+             "(no One(), no Sum over all children of a joint, no fraction with parts of equal value) proved with the values the "
+             "coin family gives every sub-expression; every look-up, ancestor computation, separation test, "
              "topological sort, index and expression operator succeeds, and the recursion budget exceeds a lexicographic "
              "measure that decreases at every call (invariants: node sets preserved, selection nodes parentless, after "
              "line 6 every child of a selection node is a target intervention - from the positive separation test); "
-             "(1c) with no usable surrogate experiment TRSO returns an estimand exactly when ID does, and 'no estimand' "
+             "(1c) with no declared surrogate experiment TRSO returns an estimand exactly when ID does, and 'no estimand' "
              "exactly when ID refuses (trso_no_surrogate_iff_id_partial, trso_no_surrogate_none_iff_id_partial: lock-step "
-             "simulation with the ID model of C01/C02); "
+             "simulation with the ID model of C01/C02), and both estimands denote P(Y|do(X)) in every compatible model "
+             "(trso_sound_no_surrogate, trso_no_surrogate_den_eq_id); "
              "(2) selection diagrams - create_transport_diagram adds exactly one parentless selection node T_v -> v per marked "
              "variable and nothing else; get_nodes_to_transport returns exactly (De(Z)-W) u (C(W)-An(W) in G[bar Z]) and is "
              "defined whenever Z, W are inside the graph; "
@@ -908,9 +925,8 @@ MANIFEST = {
              "same non-empty subscript set, a subset of that domain's declared experiments; no leaf and no Sum range mentions "
              "a selection node; without declared experiments only target terms occur (trso_no_domains_target_only); "
              "(4) semantics - Sum.safe denotes the iterated sum and line 1 is marginalisation of the carried distribution "
-             "(den_sumSafe, line1_den). NOT proved (stated as OPEN in Props/C05.lean): soundness of the recursion in every "
-             "compatible SCM family (trso_sound), that the two estimands of (1c) denote the same function, and that "
-             "activate never meets One(). These clauses are decided on every run by the correspondence plus the "
+             "(den_sumSafe, line1_den). Left partial: the VERDICT equivalence with ID is proved when no experiment is declared, "
+             "not for 'declared but none usable'. All clauses are also decided on every run by the correspondence plus the "
              "exact-rational multi-domain oracle, which evaluates every returned estimand at every value assignment on two "
              "random compatible families, by an independent re-computation of get_nodes_to_transport for every declared "
              "domain of every case, by comparison with identify_outcomes on every no-surrogate case, and by treating "
